@@ -46,6 +46,9 @@ def run(ctx):
     # the size swings between 1/5 and 4/5 of the universe several times: the tree loses a level (inner nodes merge) and
     # regains it (nodes split again) - lookups and drained iterators all the way
     drive_tv(ctx, "tree", "Trace_Tree", "tv_Id320.cfg", "tree", variant="breathe:320:noshape:cleaniter", runs=ctx.pick(5, 60), ops=ctx.pick(1500, 3000))
+    # cascading splits at every alignment (a chosen child of an exactly full inner node is made to split), then lookups of
+    # everything that went into the split region and a drained iterator
+    drive_tv(ctx, "tree", "Trace_Tree", "tv_Id1300.cfg", "tree", variant="cascade:1300:noshape:cleaniter", runs=ctx.pick(16, 64), ops=ctx.pick(5, 40), timeout=3000)
     # four levels: repeated deletion of keys that sit in inner nodes of the first three levels, lookups, drained iterators
     drive_tv(ctx, "tree", "Trace_Tree", "tv_Id1300.cfg", "tree", variant="deep:1300:noshape:cleaniter", runs=ctx.pick(4, 16), ops=ctx.pick(3, 8), timeout=3000)
     drive_tv(ctx, "tree", "Trace_Tree", "tv_Coarse40.cfg", "tree", variant="coarse:40:noshape:cleaniter", runs=ctx.pick(8, 60), ops=ctx.pick(250, 500))
